@@ -26,7 +26,12 @@ type step struct {
 	AutoFire bool       `json:"autofire,omitempty"`
 	N        int        `json:"n,omitempty"`
 	D        string     `json:"d,omitempty"`
-	Res      string     `json:"res,omitempty"`
+	// Backoff (run steps): clock advance drawn right after a Run of an idle
+	// worker, outside shutdown, that returned with a failed Synchronize outcome
+	// (what LaunchWorkerThread's back-off sleep, a suspended host or an outage
+	// put between that Run and the next one).
+	Backoff string `json:"backoff,omitempty"`
+	Res     string `json:"res,omitempty"`
 }
 
 type runResult struct {
@@ -280,6 +285,14 @@ var (
 		0, 1, time.Second, 5 * time.Second, 10 * time.Second, 59 * time.Second, time.Minute - 1, time.Minute, time.Minute + 1,
 		61 * time.Second, 2 * time.Minute, 5 * time.Minute, time.Hour,
 	})
+	// Time between a failed Run of an idle worker and the next Run: nothing,
+	// LaunchWorkerThread's own back-off (< 5 s), and outages on either side of
+	// "previous next-sync + 1 min" (next-sync offsets are drawn from genOffsets,
+	// so the bound itself lies anywhere from an hour ago to an hour ahead).
+	genBackoff = rapid.SampledFrom([]time.Duration{
+		0, 0, time.Millisecond, time.Second, 4 * time.Second, 30 * time.Second, 59 * time.Second, time.Minute, time.Minute + 1,
+		61 * time.Second, 90 * time.Second, 3 * time.Minute, 10 * time.Minute,
+	})
 	genInvalidTS  = rapid.SampledFrom([]string{"absent", "absent", "secs_hi", "secs_lo", "nanos_neg", "nanos_hi"})
 	genEmit       = rapid.SampledFrom([]int{1, 1, 2, 3, 9, 10, 11, 12, 25})
 	genCancelEmit = rapid.SampledFrom([]int{0, 0, 0, 1, 2, 10, 11, 23})
@@ -353,7 +366,7 @@ func drawReply(rt *rapid.T) *replyPlan {
 
 func TestC08RunModel(t *testing.T) {
 	rec := simkit.NewRecorder(t, "C08", "run_model",
-		"rapid-drawn scripts over a real BuildClient in a synctest bubble: steps run (one BuildClient.Run = one synchronisation round, with the drawn CheckReadiness outcome and the drawn scheduler reply: execute(action)/execute request that fails the worker's validation (unresolvable digest_function, instance_name_suffix with a reserved keyword or redundant slashes; ~1 in 6 execute replies)/execute with a malformed action_digest (not validated by BuildClient: a valid instruction)/idle/no desired state (with a drawn permission to really send it in reply to a Completed report, otherwise replaced by idle)/RPC error, valid next-sync in the past/now/future or an invalid/absent timestamp, optionally parked), emit n progress updates (incl. > channel capacity 10), finish (Execute returns its drawn response), advance clock, release (parked CheckReadiness / Synchronize / cancelled executor), shutdown (cancel the outer context). Oracle: instrumented executor (<=1 Execute active; predecessor cancelled and returned), request oracle at the scripted scheduler (state names the action last validly assigned, update objects and the Completed response are pointer-identical to what that action's Execute produced, non-OK => prefer_being_idle, Idle soliciting only after a successful CheckReadiness, prefer_being_idle on every request after shutdown; freshness/completion: a snapshot of the current action's update channel taken at Run entry, all goroutines parked, gives a lower bound for this and every later report about the action - Completed if its Execute had returned and the buffer was not full, else the newest progress update whose send had completed if the buffer was not empty), return oracle (no Execute active after a valid idle reply; may-terminate under a cancelled context only if the last delivered reply left the scheduler believing idle or now > last provided next-sync + 1 min; a rejected execute request counts as an execute reply for that rule, never starts Execute, leaves the previously assigned action in force and makes Run return an error). NON-TRIVIAL: a valid execute reply delivered while another Execute was still running (pre-emption) OR the outer context cancelled while an Execute was running; distinct by script hash")
+		"rapid-drawn scripts over a real BuildClient in a synctest bubble: steps run (one BuildClient.Run = one synchronisation round, with the drawn CheckReadiness outcome and the drawn scheduler reply: execute(action)/execute request that fails the worker's validation (unresolvable digest_function, instance_name_suffix with a reserved keyword or redundant slashes; ~1 in 6 execute replies)/execute with a malformed action_digest (not validated by BuildClient: a valid instruction)/idle/no desired state (with a drawn permission to really send it in reply to a Completed report, otherwise replaced by idle)/RPC error, valid next-sync in the past/now/future or an invalid/absent timestamp, optionally parked), emit n progress updates (incl. > channel capacity 10), finish (Execute returns its drawn response), advance clock, release (parked CheckReadiness / Synchronize / cancelled executor), shutdown (cancel the outer context); right after a Run of an idle worker outside shutdown that ended in a failed Synchronize outcome a back-off of 0 .. 10 min is drawn (both sides of 'previous next-sync + 1 min'). Oracle: instrumented executor (<=1 Execute active; predecessor cancelled and returned), request oracle at the scripted scheduler (state names the action last validly assigned, update objects and the Completed response are pointer-identical to what that action's Execute produced, non-OK => prefer_being_idle, Idle soliciting only after a successful CheckReadiness, after a non-OK Synchronize outcome (RPC error / invalid timestamp / execute request refused by the worker) every Idle request has prefer_being_idle until the fake executor has counted a CheckReadiness call made after the failure that returned nil - an obligation no passage of time ends (class label idle_request_after_failure_and_expired_bound: such a request outside shutdown with now > last provided next-sync + 1 min), prefer_being_idle on every request after shutdown; freshness/completion: a snapshot of the current action's update channel taken at Run entry, all goroutines parked, gives a lower bound for this and every later report about the action - Completed if its Execute had returned and the buffer was not full, else the newest progress update whose send had completed if the buffer was not empty), return oracle (no Execute active after a valid idle reply; may-terminate under a cancelled context only if the last delivered reply left the scheduler believing idle or now > last provided next-sync + 1 min; a rejected execute request counts as an execute reply for that rule, never starts Execute, leaves the previously assigned action in force and makes Run return an error). NON-TRIVIAL: a valid execute reply delivered while another Execute was still running (pre-emption) OR the outer context cancelled while an Execute was running; distinct by script hash")
 	rapid.Check(t, func(rt *rapid.T) {
 		var failure string
 		var foreign any
@@ -446,6 +459,11 @@ func runCase(rt *rapid.T, h *harness) {
 			h.script = append(h.script, s)
 			h.runStep = len(h.script) - 1
 			h.startRun(h.ctx, s.Ready, s.Reply, s.Yield, s.AutoFire)
+			if h.runDone == nil && !h.terminated && h.failedWhileIdleOutsideShutdown() {
+				d := genBackoff.Draw(rt, "backoff_after_failure")
+				h.script[h.runStep].Backoff = d.String()
+				h.advance(d)
+			}
 		case "emit":
 			a := h.w.activeAction()
 			n := genEmit.Draw(rt, "n")
@@ -499,6 +517,21 @@ func runCase(rt *rapid.T, h *harness) {
 		h.fail("action#%d is still running after the scheduler told the worker to go idle", a.idx)
 	}
 	h.check()
+}
+
+// failedWhileIdleOutsideShutdown: the Run that just returned performed a
+// Synchronize call with a non-OK outcome (RPC error, invalid timestamp,
+// execute request refused by the worker) while the worker's last valid
+// instruction was "idle" and the outer context is live. Judged from the
+// model's side only.
+func (h *harness) failedWhileIdleOutsideShutdown() bool {
+	w := h.w
+	w.mu.Lock()
+	defer w.mu.Unlock()
+	if w.shutdown || w.cur != nil || w.lastReplyKind == "" {
+		return false
+	}
+	return w.lastReplyKind == "rpcerr" || w.lastReplyKind == "exec_rejected" || !w.lastReplyValid
 }
 
 func (h *harness) doShutdown() {
